@@ -434,8 +434,10 @@ def minimize_lbfgsb(
             res["status"] = istate.warnflag
             return res
 
-    # Compute the first gradient if no checkpoint provided
-    if checkpoint is None:
+    # Compute the first gradient if no checkpoint provided, or if the checkpoint is the
+    # result of a call that returned before any gradient was computed (target already
+    # met at its start point): its jac is a placeholder (zeros), not the gradient at x
+    if checkpoint is None or checkpoint.njev == 0:
         grad = sf.grad(x)
     else:
         grad = checkpoint.jac
